@@ -58,4 +58,61 @@ package service
 //@   modifies misc(w)
 //@   local streamPath string
 //@   assert[call:ValidatePermission] streamPath == deliveredStream(r.URL.Path)
-//@   ensures ok ==> userNamed(hdr(r.Header, usernameHeaderKey)) != nil
+//@   ensures ok ==> userNamed(hdr(r.Header, usernameHeaderKey)) != nil && permits(userNamed(hdr(r.Header, usernameHeaderKey)), deliveredStream(r.URL.Path), auth.PullRight)
+
+//@ extern func strings.ToLower(s string) (r string)
+//@   modifies
+//@ extern func (w http.ResponseWriter) Header() (h http.Header)
+//@   modifies
+//@ extern func (h http.Header) Set(key string, value string) ()
+//@   modifies misc(h)
+//@ extern func (u *url.URL) Query() (v url.Values)
+//@   modifies
+//@ extern func (v url.Values) Get(key string) (s string)
+//@   modifies
+//@ extern func flv.ConsumeByHTTP(logger *xlog.Logger, path string, addr string, w http.ResponseWriter) ()
+//@   modifies all()
+//@ extern func hls.GetM3u8(logger *xlog.Logger, path string, token string, addr string, w http.ResponseWriter) ()
+//@   modifies all()
+//@ extern func hls.GetTS(logger *xlog.Logger, path string, addr string, w http.ResponseWriter) ()
+//@   modifies all()
+//@ extern func (l *xlog.Logger) Warnf(format string, args ...interface{}) ()
+//@   modifies
+//@ extern func http.NotFound(w http.ResponseWriter, r *http.Request) ()
+//@   modifies misc(w)
+//@ func (s *Service) onWebSocketRequest(w http.ResponseWriter, r *http.Request) ()
+//@   trusted
+//@   modifies all()
+
+// the handler hands each service exactly the path the interceptor derived the checked stream from: <stream> for FLV and
+// playlists, <stream>/<seq> for segments (hls.GetTS: contract in package service/hls)
+//@ func (s *Service) onStreamsRequest(w http.ResponseWriter, r *http.Request) ()
+//@   requires s != nil && r != nil && r.URL != nil && r.Header != nil && w != nil
+//@   modifies all()
+//@   local streamPath string
+//@   local ext string
+//@   assert[call:ConsumeByHTTP] sameStr(streamPath, exPath(r.URL.Path)) && ext == ".flv" && sameStr(ext, exExt(r.URL.Path))
+//@   assert[call:GetM3u8] sameStr(streamPath, exPath(r.URL.Path)) && ext == ".m3u8" && sameStr(ext, exExt(r.URL.Path))
+//@   assert[call:GetTS] sameStr(streamPath, exPath(r.URL.Path)) && ext == ".ts" && sameStr(ext, exExt(r.URL.Path))
+
+// with authentication enabled a /streams/ request reaches its handler only after the token check AND the pull-right
+// check of the delivered stream (hdr(...) is the user name the token check stored in the request; the token check itself
+// is assumed); crossdomain.xml is answered without reaching a handler
+//@ import "path"
+//@ import "github.com/cnotch/ipchub/config"
+//@ spec func authOn() bool = uninterpreted
+//@ extern func config.Auth() (b bool)
+//@   modifies
+//@   ensures b == authOn()
+//@ extern func path.Base(p string) (s string)
+//@   modifies
+//@ extern func (w http.ResponseWriter) Write(b []byte) (n int, err error)
+//@   modifies misc(w)
+//@ func (s *Service) authInterceptor(w http.ResponseWriter, r *http.Request) (ok bool)
+//@   trusted
+//@   requires r != nil
+//@   modifies misc(w), misc(r.Header)
+//@ func (s *Service) streamInterceptor(w http.ResponseWriter, r *http.Request) (ok bool)
+//@   requires s != nil && r != nil && r.URL != nil && r.Header != nil && w != nil
+//@   modifies misc(w), misc(r.Header), ghostAll("misc")
+//@   ensures ok && authOn() ==> userNamed(hdr(r.Header, usernameHeaderKey)) != nil && permits(userNamed(hdr(r.Header, usernameHeaderKey)), deliveredStream(r.URL.Path), auth.PullRight)
